@@ -307,3 +307,69 @@ theorem int32ToU64_ofNat (n : Nat) (h : n < 18446744073709551616) : int32ToU64 (
   unfold int32ToU64; exact Nat.mod_eq_of_lt h
 
 end PttVerif.C13
+
+/-! ### the designation layer: cutting a url / url line apart -/
+namespace PttVerif.C13
+
+theorem stripPrefix_append (p s : List Nat) : stripPrefix p (p ++ s) = some s := by
+  induction p with
+  | nil => cases s <;> rfl
+  | cons a p ih => simp [stripPrefix, ih]
+
+theorem stripSuffix_append (x s : List Nat) : stripSuffix x (s ++ x) = some s := by
+  simp [stripSuffix, List.reverse_append, stripPrefix_append]
+
+theorem splitSlash_append (folder seg : List Nat) (h : 47 ∉ folder) :
+    splitSlash (folder ++ 47 :: seg) = some (folder, seg) := by
+  induction folder with
+  | nil => simp [splitSlash]
+  | cons c cs ih =>
+    have hc : c ≠ 47 := fun e => h (by simp [e])
+    have hcs : 47 ∉ cs := fun e => h (by simp [e])
+    simp [splitSlash, hc, ih hcs]
+
+theorem cstr_append_zeros (l : List Nat) (h : ∀ c ∈ l, c ≠ 0) (k : Nat) :
+    cstr (l ++ List.replicate k 0) = l := by
+  unfold cstr
+  induction l with
+  | nil => cases k <;> simp [List.replicate]
+  | cons c cs ih =>
+    have hc : c ≠ 0 := h c (by simp)
+    simp only [List.cons_append, List.takeWhile_cons, hc, ne_eq, not_false_eq_true, decide_true, if_true]
+    rw [ih (fun x hx => h x (by simp [hx]))]
+
+theorem upHex_ne_zero (d : Nat) : upHex d ≠ 0 := by unfold upHex; split <;> omega
+
+theorem body_nonzero (ty t p : Nat) (hty : ty ≠ 0) : ∀ c ∈ body ty t p, c ≠ 0 := by
+  intro c hc
+  simp only [body, hex3, List.mem_append, List.mem_cons, List.not_mem_nil, or_false] at hc
+  rcases hc with ((((rfl | rfl) | hd) | (rfl | rfl | rfl)) | (rfl | rfl | rfl))
+  · exact hty
+  · decide
+  · have := digitsFixed_isDigit 10 t c hd
+    simp [isDigit] at this; omega
+  · decide
+  · decide
+  · decide
+  · exact upHex_ne_zero _
+  · exact upHex_ne_zero _
+  · exact upHex_ne_zero _
+
+theorem body_length (ty t p : Nat) : (body ty t p).length = 18 := by
+  simp [body, digitsFixed_length, hex3]
+
+theorem render_body (isM : Bool) (t p : Nat) :
+    render isM t p = copyInto FNLEN (body (if isM then 77 else 71) t p) := rfl
+
+theorem render_zeros (isM : Bool) (t p : Nat) :
+    render isM t p = body (if isM then 77 else 71) t p ++ List.replicate 10 0 := by
+  have hF : FNLEN = 28 := by decide +kernel
+  rw [render_body, hF, copyInto_of_le _ _ (by rw [body_length]; omega), body_length]
+
+/-- the C-string reading of a rendered name is its 18 meaningful bytes. -/
+theorem cstr_render (isM : Bool) (t p : Nat) :
+    cstr (render isM t p) = body (if isM then 77 else 71) t p := by
+  rw [render_zeros]
+  exact cstr_append_zeros _ (body_nonzero _ t p (by cases isM <;> decide)) 10
+
+end PttVerif.C13
